@@ -113,7 +113,8 @@ PROPS = {
                 'spec decides with JsonVal!Eq / Canon; non-trivial = both a hit-or-duplicate and an execution occur',
     },
     'C08': {
-        'mc_quick': ['MC_quick_nest.cfg'], 'mc_thorough': [('MC_nest.cfg', 1500)],
+        'mc_quick': ['MC_quick_nest.cfg', ('Conc_B.cfg', 300, 'FBConcMC.tla'), ('Conc_E.cfg', 300, 'FBConcMC.tla')],
+        'mc_thorough': [('MC_nest.cfg', 1500)],
         'title': 'At most one execution per key',
         'units': [('dup', 4000, 50000), ('general', 500, 8000), ('regress', 0, 0)],
         'thread_units': (120, 1200, 8, 0, 2, 10), 'thread_profile': 'threaddup',
@@ -186,7 +187,8 @@ PROPS = {
                 'temp dir left, no user code run)',
     },
     'C09': {
-        'mc_quick': [], 'sim': None,
+        'mc_quick': [(c, 300, 'FBConcMC.tla') for c in ('Conc_A.cfg', 'Conc_B.cfg', 'Conc_C.cfg', 'Conc_D.cfg',
+                                                         'Conc_Ds.cfg', 'Conc_E.cfg')], 'sim': None,
         'title': 'Thread safety',
         'thread_units': (150, 1500, 10, 0, 3, 12),   # base histories q/t, single preemptions per par q/t (0 = all), pairs q/t
         'units': [('regress', 0, 0)],
@@ -201,7 +203,7 @@ PROPS = {
                 'forced or random preemption',
     },
     'C17': {
-        'mc_quick': [], 'sim': None,
+        'mc_quick': [('Fence_nested.cfg', 120, 'FBFence.tla'), ('Fence_root.cfg', 120, 'FBFence.tla')], 'sim': None,
         'title': 'Finished builders are fenced off',
         'units': [('stale', 2500, 30000)],
         'thread_units': (250, 2500, 8, 0, 0, 0), 'thread_profile': 'straggler',
